@@ -1416,7 +1416,7 @@ func buildLayers(tier string) []*layer {
 	if tier == "thorough" {
 		return []*layer{layer1(7), layer2(4, 2), layer2(3, 3)}
 	}
-	return []*layer{layer1(5), layer2(3, 2)}
+	return []*layer{layer1(6), layer2(3, 2)} // 6 keys: the smallest tree with a double rotation around a pivot of balance +-1
 }
 
 func main() {
